@@ -97,6 +97,18 @@ def root_qname(fn):
     return f.qname
 
 
+_SEQ = re.compile(r"^&?(?:mut )?(?:std::vec::Vec<(.+?)(?:, [^,<>]+)?>|\[(.+?)(?:; [^\]]+)?\])$")
+
+
+def seq_class(ty):
+    """Vec<T>, [T], [T; N] and references to them index alike: one receiver class `seq<T>` (a helper that takes a slice
+    of the caller's Vec must not look like a new kind of site)"""
+    m = _SEQ.match(ty)
+    if not m:
+        return ty
+    return "seq<%s>" % (m.group(1) or m.group(2))
+
+
 _CLOSURE_SUFFIX = re.compile(r"(::\{closure#\d+\})+$")
 
 
@@ -199,7 +211,7 @@ def sites_of(fn, T, extern_panicking=None):
                 keypart = opt
             elif kind == "index":
                 ga = t["f"].get("ga", [])
-                keypart = fn.ty(ga[0]).s if ga else ""
+                keypart = seq_class(fn.ty(ga[0]).s) if ga else ""
             if kind == "extern" and q in ("std::iter::Iterator::sum", "std::iter::Iterator::product"):
                 # the same hazard as an explicit accumulation loop: key it like one
                 kind, q = "overflow", ("Add" if q.endswith("sum") else "Mul")
